@@ -395,7 +395,9 @@ def oracle(c, obs, present=frozenset()):
                 # afterwards: zero columns
                 if np.abs(H[:, a + 1:]).max(initial=0) > 0 or np.abs(Q[:, a + 2:]).max(initial=0) > 0:
                     bad.append(tag + f"non-zero columns after the factorisation closed at step {a + 1} (iteration continued through rounding noise)")
-                if a + 1 <= m and np.abs(H[:, a]).max() > 0 and not garbage_ok and np.abs(Q[:, a + 1]).max() > 1e-12:
+                # (a zero column is demanded when the remainder is within the tolerance the caller gave, norm <= tol/2; with a tolerance
+                #  below the rounding level of the run the remainder "exceeds the tolerance" and is legitimately normalised)
+                if a + 1 <= m and np.abs(H[:, a]).max() > 0 and not garbage_ok and sd[a] <= c["tol"] / 2.0 and np.abs(Q[:, a + 1]).max() > 1e-12:
                     bad.append(tag + f"column {a + 1} after breakdown is neither zero nor a unit vector (norm {np.linalg.norm(Q[:, a + 1]):.3g})")
             U, grade = krylov_basis(S, v, min(n, a + 2))
             if grade is not None and a > grade:
